@@ -60,15 +60,29 @@ fn l2_of<const L: usize>(d: &bourse_book::types::Level2Data<L>) -> L2 {
     }
 }
 
-fn rec_of<const L: usize>(r: &bourse_de::Level2DataRecords<L>, tv: &[u32], touch_v: (&Vec<u32>, &Vec<u32>), touch_c: (&Vec<u32>, &Vec<u32>), prices: &(Vec<u32>, Vec<u32>), vols: &(Vec<u32>, Vec<u32>)) -> Records {
+/// (the recorded series are read through a width-agnostic conversion: a library that stores them
+/// in a narrower or wider integer type must still build against the harness and be judged by value)
+fn widen<T: Copy + TryInto<u64>>(v: &[T]) -> Vec<u32> {
+    v.iter().map(|x| (*x).try_into().map(|y: u64| y.min(u32::MAX as u64) as u32).unwrap_or(u32::MAX)).collect()
+}
+
+fn rec_of<const L: usize, A: Copy + TryInto<u64>, B: Copy + TryInto<u64>, C: Copy + TryInto<u64>, D: Copy + TryInto<u64>, E: Copy + TryInto<u64>, F: Copy + TryInto<u64>>(
+    levels: (&[Vec<A>; L], &[Vec<A>; L]),
+    counts: (&[Vec<B>; L], &[Vec<B>; L]),
+    tv: &[C],
+    touch_v: (&Vec<D>, &Vec<D>),
+    touch_c: (&Vec<E>, &Vec<E>),
+    prices: &(Vec<F>, Vec<F>),
+    vols: &(Vec<D>, Vec<D>),
+) -> Records {
     Records {
-        prices: prices.clone(),
-        volumes: vols.clone(),
-        touch_vols: (touch_v.0.clone(), touch_v.1.clone()),
-        touch_counts: (touch_c.0.clone(), touch_c.1.clone()),
-        level_vols: (r.volumes_at_levels.0.to_vec(), r.volumes_at_levels.1.to_vec()),
-        level_counts: (r.orders_at_levels.0.to_vec(), r.orders_at_levels.1.to_vec()),
-        trade_vols: tv.to_vec(),
+        prices: (widen(&prices.0), widen(&prices.1)),
+        volumes: (widen(&vols.0), widen(&vols.1)),
+        touch_vols: (widen(touch_v.0), widen(touch_v.1)),
+        touch_counts: (widen(touch_c.0), widen(touch_c.1)),
+        level_vols: (levels.0.iter().map(|v| widen(v)).collect(), levels.1.iter().map(|v| widen(v)).collect()),
+        level_counts: (counts.0.iter().map(|v| widen(v)).collect(), counts.1.iter().map(|v| widen(v)).collect()),
+        trade_vols: widen(tv),
     }
 }
 
@@ -139,7 +153,8 @@ impl<const A: usize, const L: usize> AnyEnv<A, L> {
                     book: Snap::take(e.get_orderbook()),
                     l2: l2_of(e.level_2_data()),
                     rec: rec_of(
-                        e.get_level_2_data_history(),
+                        (&e.get_level_2_data_history().volumes_at_levels.0, &e.get_level_2_data_history().volumes_at_levels.1),
+                        (&e.get_level_2_data_history().orders_at_levels.0, &e.get_level_2_data_history().orders_at_levels.1),
                         e.get_trade_vols(),
                         e.get_touch_volumes(),
                         e.get_touch_order_counts(),
@@ -153,7 +168,8 @@ impl<const A: usize, const L: usize> AnyEnv<A, L> {
                     book: Snap::take(e.get_market().get_order_book(a)),
                     l2: l2_of(&e.level_2_data()[a]),
                     rec: rec_of(
-                        e.get_level_2_data_history(a),
+                        (&e.get_level_2_data_history(a).volumes_at_levels.0, &e.get_level_2_data_history(a).volumes_at_levels.1),
+                        (&e.get_level_2_data_history(a).orders_at_levels.0, &e.get_level_2_data_history(a).orders_at_levels.1),
                         e.get_trade_vols(a),
                         e.get_touch_volumes(a),
                         e.get_touch_order_counts(a),
